@@ -30,8 +30,8 @@ def main(tier):
         ma = mitcross.mit_apreq_cross(wd, mitdir, 4000)
         run.extra["apexchange_vs_mit_acceptor"] = {k: v for k, v in ma.items() if k not in ("first", "disagreeing_deviations")}
         if ma.get("disagreements"):
-            raise vlib.Inconclusive("APExchange and MIT's krb5_rd_req disagree on %d of %d requests (deviations: %s); first: %s"
-                                    % (ma["disagreements"], ma["requests"], ma["disagreeing_deviations"], ma["first"]))
+            vlib.spec_validation_problem(run, "APExchange and MIT's krb5_rd_req disagree on %d of %d requests (deviations: %s); first: %s"
+                                         % (ma["disagreements"], ma["requests"], ma["disagreeing_deviations"], ma["first"]))
         lines = vlib.read_ndjson(trace)
         run.cov["evaluations"] = 2 * len(lines)
         accepted = sum(1 for x in lines if x["p1"]["ok"])
@@ -58,7 +58,8 @@ def main(tier):
         run.extra["interop_with_mit_client"] = mi
         for x in mbad:
             if x["mitStage"] < 7:
-                raise vlib.Inconclusive("MIT's client does not get through the simulated KDC (stage %d, %s): the simulator is not a conformant KDC" % (x["mitStage"], x["mitMsg"]))
+                vlib.spec_validation_problem(run, "MIT's client does not get through the simulated KDC (stage %d, %s)" % (x["mitStage"], x["mitMsg"]))
+                continue
             run.violation({"interop": "mit-client", "et": x["et"], "accepted": x["accepted"], "panic": bool(x["panic"])}, {"line": x})
         if mi.get("available"):
             run.cov["evaluations"] += mi["scenarios"]
